@@ -22,6 +22,7 @@ import (
 	"sort"
 	"strings"
 	"testing"
+	"time"
 
 	"github.com/davecgh/go-spew/spew"
 	"github.com/specterops/dawgs/cypher/frontend"
@@ -37,7 +38,7 @@ import (
 type Task struct {
 	Q     int    `json:"q"`     // corpus index
 	Share int    `json:"share"` // tasks with the same share id >= 0 translate the SAME AST value and parameter map
-	Fault string `json:"fault"` // "" | maperr | cancel
+	Fault string `json:"fault"` // "" | maperr | cancel | deadline | maptimeout
 	K     int    `json:"k"`     // on the k-th mapper call of this task
 }
 
@@ -133,6 +134,13 @@ func parse(c qcase) (*cypher.RegularQuery, error) {
 
 var errInjected = errors.New("injected kind mapper fault")
 
+// timeoutErr is a timeout-class error (net.Error style) that is not a context error.
+type timeoutErr struct{}
+
+func (timeoutErr) Error() string   { return "kind lookup timed out" }
+func (timeoutErr) Timeout() bool   { return true }
+func (timeoutErr) Temporary() bool { return true }
+
 // mapper is the shared KindMapper: a pure function of the kind name, every call a scheduling and
 // fault point. Per-task fault plans are looked up through the context.
 type mapper struct{}
@@ -161,6 +169,28 @@ func (mapper) hook(ctx context.Context) error {
 		return nil
 	}
 	ts.calls++
+	switch ts.fault {
+	case "deadline":
+		// every lookup takes 10ms of simulated time; the deadline sits in the middle of the k-th one
+		simrt.Sleep(10 * time.Millisecond)
+		if err := ctx.Err(); err != nil {
+			if !ts.fired {
+				ts.fired = true
+				ts.sim.NoteFault("deadline")
+			}
+			return err
+		}
+		return nil
+	case "maptimeout":
+		if ts.calls >= ts.k {
+			if !ts.fired {
+				ts.fired = true
+				ts.sim.NoteFault("maptimeout")
+			}
+			return timeoutErr{}
+		}
+		return nil
+	}
 	if ts.fault != "" && ts.calls == ts.k {
 		ts.fired = true
 		if ts.sim != nil {
@@ -302,6 +332,15 @@ func gen(r *rand.Rand) WL {
 			t.Fault, t.K = "maperr", 1+r.IntN(4)
 		case 1:
 			t.Fault, t.K = "cancel", 1+r.IntN(4)
+		case 2:
+			// the call's context carries a deadline that passes on the simulated clock while the mapper
+			// (which takes simulated time and honours the context) is being asked
+			if r.IntN(2) == 0 {
+				t.Fault, t.K = "deadline", 1+r.IntN(3)
+			} else {
+				// the mapper itself keeps timing out from its k-th lookup on
+				t.Fault, t.K = "maptimeout", 1+r.IntN(3)
+			}
 		}
 		w.Tasks = append(w.Tasks, t)
 	}
@@ -363,6 +402,9 @@ func exec(t *testing.T, w WL, cfg simrt.Config) simh.Outcome {
 				continue
 			}
 			ctx, cancel := context.WithCancel(context.Background())
+			if tk.Fault == "deadline" {
+				ctx, cancel = context.WithTimeout(context.Background(), time.Duration(10*tk.K-5)*time.Millisecond)
+			}
 			ts := &taskState{fault: tk.Fault, k: tk.K, cancel: cancel, sim: s}
 			states[i] = ts
 			ctx = context.WithValue(ctx, taskKey{}, ts)
@@ -459,7 +501,7 @@ func shrink(w WL) []WL {
 func TestSim(t *testing.T) {
 	simh.Main(t, simh.Harness[WL]{Property: "C05", Gen: gen, Exec: exec, Shrink: shrink,
 		Tune: func(w WL, cfg *simrt.Config) {
-			cfg.MaxSteps, cfg.FairSteps = 2000000, 2000000
+			cfg.MaxSteps, cfg.FairSteps = 400000, 400000
 			if cfg.SiteSample == 0 {
 				cfg.SiteSample = []float64{0.01, 0.03, 0.1, 0.3}[cfg.Seed%4]
 			}
